@@ -25,10 +25,29 @@ Off3 == Q(<<20, 22, 26>>)
 Off4 == Q(<<20, 22, 26, 27>>)
 
 EvenGrid(n) == [i \in 1..n |-> FromInt(2 * (i - 1))]
+\* a long grid (15 intervals of width 1, 2 or 3, one of them centred at the origin): everything that depends
+\* on the NUMBER of intervals - the interval search, loops over intervals, capacities - and not only on the
+\* relative placement of windows
+L16 == Q(<<-11, -9, -8, -5, -4, -1, 1, 2, 4, 7, 8, 10, 12, 13, 15, 18>>)
+IsLong(g) == Len(g) >= 12
+
+\* size sweep: one grid for every number of intervals n (widths 1, 2, 3 in turn), so that thresholds in the
+\* NUMBER of intervals (a search that changes strategy at 16, a blocked loop, 2^k + 1 intervals, a capacity)
+\* are crossed one by one
+SweepGrid(n) == [i \in 1..(n + 1) |-> FromInt(2 * (i - 1) - n + (IF i % 3 = 0 THEN 1 ELSE 0))]
+SweepSizes == IF Thorough THEN (1..72) \cup {127, 128, 129, 130} ELSE (1..40) \cup {63, 64, 65, 66}
+\* grid points, midpoints, one step outside
+SweepProbes(g) == {g[i] : i \in 1..Len(g)} \cup {Mid(g, j) : j \in 0..(Len(g) - 2)}
+                  \cup {RSub(g[1], ROne), RAdd(g[Len(g)], ROne)}
 
 \* all valid windows of a grid with n points: empty plus every s < e <= n
 ValidWindows(n) == {w \in ((0..n) \X (0..n)) : (w[1] = 0 /\ w[2] = 0) \/ (w[1] < w[2])}
-SupportsOn(g) == {Sup(g, w[1], w[2]) : w \in ValidWindows(Len(g))}
+\* on a long grid: the whole grid, a long prefix / suffix / inner window overlapping each other, two short
+\* windows far inside, a point-like and the empty window
+LongWindows(n) == {<<0, 0>>, <<0, n>>, <<0, (n \div 2) + 2>>, <<(n \div 2) - 2, n>>, <<3, n - 4>>, <<1, n - 1>>,
+                   <<5, 6>>, <<n - 5, n - 2>>, <<4, 7>>}
+WindowsOf(g) == IF IsLong(g) THEN LongWindows(Len(g)) ELSE ValidWindows(Len(g))
+SupportsOn(g) == {Sup(g, w[1], w[2]) : w \in WindowsOf(g)}
 
 \* coefficient variants for a window with n intervals and order o
 Generic(n, o, v) == [r \in 1..n |-> [k \in 1..(o + 1) |-> FromInt(((7 * r + 3 * k + 2 * v) % 7) - 3)]]
@@ -58,7 +77,7 @@ GridVariants(g) ==
       Moved(i) == IF i = 1 THEN [g EXCEPT ![1] = RSub(g[1], ROne)]
                   ELSE IF i = n THEN [g EXCEPT ![n] = RAdd(g[n], ROne)]
                   ELSE [g EXCEPT ![i] = RDiv(RAdd(g[i - 1], g[i]), RTwo)]
-  IN {Moved(i) : i \in 1..n}                                 \* exactly one point moved, at every position
+  IN {Moved(i) : i \in (IF n >= 12 THEN {1, 2, n \div 2, n - 1, n} ELSE 1..n)}   \* exactly one point moved, at every position (long grids: five positions)
   \cup {InsertAfter(g, 0, RSub(g[1], ROne))}                  \* extra point in front
   \cup {InsertAfter(g, n, RAdd(g[n], ROne))}                  \* extra point at the back
   \cup {InsertAfter(g, 1, RDiv(RAdd(g[1], g[2]), RTwo))}      \* extra point inside
